@@ -27,48 +27,63 @@ PROP = "C16"
 # Known findings live in /verif/known_findings.json (matched by common.Verdict: C16-F01 record type outside the
 # CRC, C16-F02 stale .tmp reused after a crash inside cut()).  TODO-known: findings not yet moved there by the
 # lead; same signature format (branch | kind | detail, regexes).  Empty when everything has been moved.
-TODO_KNOWN = [
-    {"id": "C16-F03",
-     "signature": {"branch": r"wal\.recover\.read-at-snap", "kind": r"stale-superseded-entry", "detail": r"stale-superseded-entry"},
-     "what": "ReadAll opened at a snapshot ignores entry records at or below the snapshot index altogether "
-             "(wal.go:460 `if e.Index > w.start.Index`), so when a new term overwrote the uncommitted tail starting "
-             "at or below that index (and the snapshot was taken afterwards) the superseded entries ABOVE the "
-             "snapshot index are returned although ReadAll promises to suppress overridden entries: the log handed "
-             "to raft has a lower term after the snapshot's term"},
-]
+TODO_KNOWN = []
+
+
+STD_INV = "TypeOK RecoveredIsPrefix TornTailRepairable AppendAfterRecoveryIsClean EntriesContiguous"
+# with the crash inside cut() the as-built model is NOT always recoverable (known finding C16-F02); the instance
+# then checks that this is the only way recovery fails, and that it always fails then
+# single-word corruption: as built the only accepted non-prefix result comes from the unprotected type byte (C16-F01)
+COR_INV = "TypeOK RecoveredIsPrefix TornTailRepairable EntriesContiguous CorruptAcceptedOnlyByTypeFlip"
+CUT_INV = "TypeOK RecoveredIsPrefix AppendAfterRecoveryIsClean EntriesContiguous FailuresOnlyFromStaleTmp StaleTmpAlwaysFatal"
 
 
 def cfg_text(**kw):
     d = dict(SectorWords=64, SegWords=256, MetaWords=3, MaxOps=2, MaxEnts=2, MaxLost=6, WithSnap="TRUE",
-             WithRewrite="TRUE", WithAppend="FALSE", ZeroToEndOn="TRUE", TornShift=1, EmitOn="TRUE",
-             EntSizes="EntSizesQ", AppSizes="AppSizesQ")
+             WithRewrite="TRUE", WithAppend="FALSE", WithCutCrash="FALSE", StaleTmpAsBuilt="TRUE",
+             WithCorrupt="FALSE", TypeInCrc="FALSE", ZeroToEndOn="TRUE", TornShift=1, EmitOn="TRUE", EntSizes="EntSizesQ", AppSizes="AppSizesQ")
     d.update(kw)
+    inv = d.pop("INV", STD_INV)
     s = "SPECIFICATION Spec\nCONSTANTS\n"
     for k, v in d.items():
         s += ("  %s <- %s\n" if k in ("EntSizes", "AppSizes") else "  %s = %s\n") % (k, v)
     s += "CONSTRAINT Bound\nACTION_CONSTRAINT Emit\n"
-    s += "INVARIANTS TypeOK RecoveredIsPrefix TornTailRepairable AppendAfterRecoveryIsClean EntriesContiguous\n"
+    s += "INVARIANTS " + inv + "\n"
     return s
 
 
 def instances(tier):
     """(name, cfg keywords, must_fail)"""
     q = [
-        ("q", dict(MaxOps=2, MaxEnts=2, EntSizes="EntSizes3"), False),
+        ("q", dict(MaxOps=2, MaxEnts=2, EntSizes="EntSizes3", WithRewrite="FALSE"), False),
         ("a", dict(MaxOps=1, MaxEnts=2, WithAppend="TRUE"), False),
         ("n", dict(MaxOps=2, MaxEnts=1, MetaWords=2, SegWords=128, EntSizes="EntSizesN"), False),
+        ("c", dict(MaxOps=2, MaxEnts=1, SegWords=128, EntSizes="EntSizes1N", WithSnap="FALSE", WithAppend="TRUE", WithCutCrash="TRUE", INV=CUT_INV), False),
+        ("k", dict(MaxOps=2, MaxEnts=1, EntSizes="EntSizes2", WithCorrupt="TRUE", INV=COR_INV), False),
         ("xz", dict(MaxOps=1, WithAppend="TRUE", ZeroToEndOn="FALSE", EmitOn="FALSE"), True),
         ("xt", dict(MaxOps=1, TornShift=0, EmitOn="FALSE"), True),
+        ("xc", dict(MaxOps=2, MaxEnts=1, SegWords=128, EntSizes="EntSizes1N", WithSnap="FALSE", WithRewrite="FALSE", WithAppend="TRUE",
+                    WithCutCrash="TRUE", EmitOn="FALSE"), True),
+        ("xk", dict(MaxOps=1, MaxEnts=1, EntSizes="EntSizes2", WithCorrupt="TRUE", EmitOn="FALSE", INV="TypeOK CorruptionNeverAccepted"), True),
     ]
     if tier == "quick":
         return q
     return [
         ("q", dict(MaxOps=2, MaxEnts=2), False),
-        ("a", dict(MaxOps=2, MaxEnts=1, WithAppend="TRUE", EntSizes="EntSizes3"), False),
+        ("a", dict(MaxOps=2, MaxEnts=2, WithAppend="TRUE", EntSizes="EntSizes2"), False),
         ("n", dict(MaxOps=2, MaxEnts=2, MetaWords=2, SegWords=128, EntSizes="EntSizesN"), False),
-        ("d", dict(MaxOps=3, MaxEnts=1, EntSizes="EntSizesD", WithSnap="FALSE"), False),
+        ("d", dict(MaxOps=3, MaxEnts=2, EntSizes="EntSizes2"), False),
+        ("c", dict(MaxOps=2, MaxEnts=2, SegWords=128, EntSizes="EntSizes2N", WithAppend="TRUE", WithCutCrash="TRUE", INV=CUT_INV), False),
+        ("fc", dict(MaxOps=2, MaxEnts=1, SegWords=128, EntSizes="EntSizes2N", WithAppend="TRUE", WithCutCrash="TRUE",
+                    StaleTmpAsBuilt="FALSE", EmitOn="FALSE"), False),
+        ("k", dict(MaxOps=2, MaxEnts=2, EntSizes="EntSizes3", WithCorrupt="TRUE", INV=COR_INV), False),
+        ("fk", dict(MaxOps=2, MaxEnts=1, EntSizes="EntSizes2", WithCorrupt="TRUE", TypeInCrc="TRUE", EmitOn="FALSE",
+                    INV="TypeOK CorruptionNeverAccepted"), False),
         ("xz", dict(MaxOps=1, WithAppend="TRUE", ZeroToEndOn="FALSE", EmitOn="FALSE"), True),
         ("xt", dict(MaxOps=1, TornShift=0, EmitOn="FALSE"), True),
+        ("xc", dict(MaxOps=2, MaxEnts=1, SegWords=128, EntSizes="EntSizes1N", WithSnap="FALSE", WithRewrite="FALSE", WithAppend="TRUE",
+                    WithCutCrash="TRUE", EmitOn="FALSE"), True),
+        ("xk", dict(MaxOps=1, MaxEnts=1, EntSizes="EntSizes2", WithCorrupt="TRUE", EmitOn="FALSE", INV="TypeOK CorruptionNeverAccepted"), True),
     ]
 
 
@@ -84,7 +99,56 @@ class TlcJob(threading.Thread):
         self.scen = os.path.join(root, "scen-%s.ndjson" % name)
         self.count = 0
         self.nontrivial = 0
+        self.labels = collections.Counter()
         self.exc = None
+
+    def note(self, d):
+        """action / branch labels of the model exercised by this scenario (stands in for `-coverage 1`, which
+        exhausts the heap on this spec before the first state)"""
+        L = self.labels
+        for o in d["ops"]:
+            if o["k"] == "snap":
+                L["op.SaveSnapshot"] += 1
+                continue
+            hk = "none" if o["hs"] == [0, 0, 0] else "hs"
+            L["op.Save.%s.ents=%d" % (hk, len(o["ws"]))] += 1
+            if o["cut"]:
+                L["op.Save.cut"] += 1
+            if not o["sync"]:
+                L["op.Save.buffered(MustSync=false)"] += 1
+        saves = [o for o in d["ops"] if o["k"] == "save" and o["ws"]]
+        for i in range(1, len(saves)):
+            if saves[i]["first"] < saves[i - 1]["first"] + len(saves[i - 1]["ws"]):
+                L["op.Save.rewrite-uncommitted-tail"] += 1
+        if d.get("cor", {}).get("kind", "none") != "none":
+            L["Corrupt." + d["cor"]["kind"]] += 1
+            L["Corrupt.%s" % ("rejected" if not d["p1"]["ok"] else "accepted")] += 1
+            if d.get("nonprefix"):
+                L["Corrupt.type.accepted-nonprefix(C16-F01)"] += 1
+            return
+        L["crash1.lost=%s" % ("0" if not d["lost"] else "some")] += 1
+        if d["tail"] > 1:
+            L["crash1.segments>1"] += 1
+        p = d["p1"]
+        L["recover1.first=%s" % p["first"]] += 1
+        if p["rep"]:
+            L["recover1.Repair"] += 1
+        if p["nacc"] > d["dur"]:
+            L["recover1.kept-unsynced-records"] += 1
+        if p["nacc"] == d["dur"] and d["lost"]:
+            L["recover1.exactly-durable"] += 1
+        if d.get("cutcrash"):
+            L["CrashInCut"] += 1
+            if d["two"] and not d["p2"]["ok"]:
+                L["CrashInCut.stale-tmp-fatal(C16-F02)"] += 1
+        if d["two"] and d["app"] and d["app"][0]["cut"]:
+            L["Append2Cut"] += 1
+        if d["two"]:
+            L["Append2"] += 1
+            L["crash2.lost=%s" % ("0" if not d["lost2"] else "some")] += 1
+            L["recover2.first=%s" % d["p2"]["first"]] += 1
+            if d["p2"]["rep"]:
+                L["recover2.Repair"] += 1
 
     def run(self):
         try:
@@ -107,8 +171,9 @@ class TlcJob(threading.Thread):
                         seen.add(key)
                         d["id"] = "%s%d" % (self.name_, self.count)
                         self.count += 1
-                        if d.get("lost") or d.get("lost2"):
+                        if d.get("lost") or d.get("lost2") or d.get("cor", {}).get("kind", "none") != "none":
                             self.nontrivial += 1
+                        self.note(d)
                         o.write(json.dumps(d) + "\n")
                 os.remove(self.raw)
         except Exception as e:  # reported by the main thread
@@ -120,7 +185,8 @@ def run_tlc_local(module, cfg, wd, workers, heap, timeout, raw_path):
     flux) - same JVM flags, same parsing of the result."""
     res = common.TLCResult()
     meta = os.path.join(wd, "meta")
-    cmd = ["java", "-Xmx" + heap, "-Xss64m", "-XX:+UseParallelGC", "-cp", common.TLA_CP, "tlc2.TLC",
+    cmd = ["java", "-Xmx" + heap, "-Xss64m", "-XX:+UseParallelGC", "-XX:ParallelGCThreads=%d" % max(1, min(4, workers // 2)),
+           "-XX:CICompilerCount=2", "-cp", common.TLA_CP, "tlc2.TLC",
            "-workers", str(workers), "-metadir", meta, "-noGenerateSpecTE", "-deadlock",
            "-config", cfg, module + ".tla"]
     t0 = time.time()
@@ -225,7 +291,7 @@ class Campaign:
                 done = True
                 st = d["stats"]
                 c = self.stats[cmd]
-                for k in ("cases", "reads", "violations", "divergences", "skips"):
+                for k in ("cases", "reads", "violations", "divergences", "skips", "ambiguity"):
                     c[k] += st.get(k, 0)
                 for k, v in (st.get("labels") or {}).items():
                     c["label:" + k] += v
@@ -291,7 +357,7 @@ def trace_validate(root, quick, C):
         shutil.copy(os.path.join(common.SPEC, f), wd)
     tp = os.path.join(wd, "trace.ndjson")
     open(tp, "w").writelines(lines)
-    cmd = ["java", "-Xmx4g", "-Xss64m", "-XX:+UseParallelGC", "-cp", common.TLA_CP, "tlc2.TLC", "-workers", "1",
+    cmd = ["java", "-Xmx4g", "-Xss64m", "-XX:+UseSerialGC", "-cp", common.TLA_CP, "tlc2.TLC", "-workers", "1",
            "-metadir", os.path.join(wd, "meta"), "-noGenerateSpecTE", "-deadlock", "-config", "TraceWal.cfg", "TraceWal.tla"]
     t0 = time.time()
     try:
@@ -364,9 +430,11 @@ def main():
     cores = os.cpu_count() or 8
     jobs = []
     inst = instances(tier)
-    per = max(2, min(8, cores // 2))
+    # worker threads per instance: the large ones get more; never more JVM threads than the machine can serve
+    big = {"q": 6, "d": 8, "a": 4 if quick else 8, "n": 3 if quick else 4, "c": 2 if quick else 4, "k": 2 if quick else 4}
     for (name, kw, must_fail) in inst:
-        j = TlcJob(name, kw, must_fail, root, per if not must_fail else 2, "3g" if quick else "6g", 80 if quick else 700)
+        wk = 1 if must_fail or name.startswith("f") else min(big.get(name, 2), max(1, cores // 2))
+        j = TlcJob(name, kw, must_fail, root, wk, "3g" if quick else "6g", 200 if quick else 840)
         jobs.append(j)
         j.start()
     # snapshot model
@@ -392,14 +460,15 @@ def main():
     nsh = max(2, min(8, cores // 2))
     pr = []
     nrnd_sh = nsh if not quick else 4
-    pr += C.launch("random", ["-n", str(1500 if quick else 40000)], nrnd_sh, "rnd", traceout=True)
+    pr += C.launch("random", ["-n", str(1500 if quick else 60000)], nrnd_sh, "rnd", traceout=True)
     pr += C.launch("snap", ["-n", str(6 if quick else 30)], 2 if quick else nsh, "snap")
     pr += C.launch("snapreplay", ["-in", snapscen], 1, "snapr")
-    pr += C.launch("corrupt", ["-n", str(5 if quick else 40)] + ([] if quick else ["-full"]), nsh, "cor")
+    pr += C.launch("corrupt", ["-n", str(6 if quick else 60)] + ([] if quick else ["-full"]), nsh, "cor")
 
     states = transitions = 0
     model = {}
     total_scen = nontrivial_tlc = 0
+    model_labels = collections.Counter()
     for j in jobs:
         j.join()
         if j.exc is not None:
@@ -416,8 +485,11 @@ def main():
         transitions += r.generated
         total_scen += j.count
         nontrivial_tlc += j.nontrivial
+        model_labels.update(j.labels)
         model[j.name_] = {"cfg": j.kw, "distinct_states": r.distinct, "generated": r.generated, "depth": r.depth,
                           "scenarios": j.count, "wall_s": round(r.wall, 1)}
+        if j.kw.get("EmitOn") == "FALSE":
+            continue
         if j.count == 0:
             common.die_infra("TLC instance %s emitted no scenario" % j.name_)
         pr += C.launch("replay", ["-in", j.scen], nsh, "rep-" + j.name_)
@@ -425,7 +497,7 @@ def main():
     transitions += sres.generated
     model["snap"] = {"distinct_states": sres.distinct, "generated": sres.generated, "scenarios": nsnap}
 
-    C.collect(pr, 75 if quick else 800)
+    C.collect(pr, 150 if quick else 840)
 
     # ---- binding B2: the recorded reader calls of the random campaign are judged by TraceWal.tla
     b2 = trace_validate(root, quick, C)
@@ -433,6 +505,8 @@ def main():
     # ---- verdict
     divergences = collections.Counter()
     skips = collections.Counter()
+    ambiguity = collections.Counter()
+    ambiguity_samples = []
     known_local = {}
     for f in C.findings:
         cls = f.get("class")
@@ -443,6 +517,11 @@ def main():
             continue
         if cls == "skip":
             skips[f.get("sig", "?")] += 1
+            continue
+        if cls == "ambiguity":
+            ambiguity[f.get("kind", "?")] += 1
+            if len(ambiguity_samples) < 2:
+                ambiguity_samples.append(f)
             continue
         if cls != "violation":
             continue
@@ -485,6 +564,7 @@ def main():
         "transitions": int(transitions),
         "traces_validated_against_impl": int(st["replay"]["cases"] + st["snapreplay"]["cases"] + b2["events"]),
         "model_instances": model,
+        "model_action_labels": dict(sorted(model_labels.items())),
         "tlc_scenarios": int(total_scen),
         "tlc_scenarios_with_lost_sectors": int(nontrivial_tlc),
         "replayed": int(st["replay"]["cases"]),
@@ -498,6 +578,11 @@ def main():
         "snap_model_scenarios": int(st["snapreplay"]["cases"]),
         "b2_trace_validation": b2,
         "labels": labels,
+        "ambiguity_uses": int(sum(st[cmd]["ambiguity"] for cmd in st)),
+        "ambiguity_kinds": {"stale-superseded-entry": "ReadAll opened at a snapshot returns an entry above the snapshot index that a "
+                            "later save had overwritten starting at or below that index (the entry was written; DESIGN 2.4)",
+                            "commit-only-hardstate": "implicit: a commit-only Save is not required to be durable (MustSync false)"},
+        "ambiguity_samples": ambiguity_samples,
         "divergences": int(ndiv),
         "divergence_signatures": dict(divergences),
         "skipped": dict(skips),
@@ -508,6 +593,16 @@ def main():
     # vacuity guards: the campaigns must have exercised what they claim (only meaningful when nothing failed)
     need = [("replay", "label:first=ueof"), ("replay", "label:repair"), ("replay", "label:epoch2"), ("replay", "label:segments>1"),
             ("snap", "label:snap.fallback"), ("corrupt", "label:rejected")]
+    must_labels = ["op.SaveSnapshot", "op.Save.cut", "op.Save.buffered(MustSync=false)", "op.Save.rewrite-uncommitted-tail",
+                   "op.Save.none.ents=1", "op.Save.hs.ents=0", "op.Save.hs.ents=2", "crash1.lost=some", "crash1.segments>1",
+                   "recover1.first=ok", "recover1.first=ueof", "recover1.Repair", "recover1.kept-unsynced-records",
+                   "recover1.exactly-durable", "Append2", "crash2.lost=some", "recover2.first=ueof", "recover2.Repair",
+                   "CrashInCut", "Append2Cut", "CrashInCut.stale-tmp-fatal(C16-F02)",
+                   "Corrupt.len", "Corrupt.type", "Corrupt.data", "Corrupt.rejected", "Corrupt.accepted",
+                   "Corrupt.type.accepted-nonprefix(C16-F01)"]
+    for k in must_labels:
+        if model_labels[k] == 0:
+            common.die_infra("vacuity guard: no TLC scenario exercised %s" % k)
     if not V.violations:
         for cmd, k in need:
             if st[cmd][k] == 0:
